@@ -148,6 +148,12 @@ def _gen_c(ctx, rnd):
                              (rr + n, ss, "r+n"), (rr, ss + n, "s+n"), (0, ss, "r=0"), (rr, 0, "s=0"), (n, ss, "r=n"), (rr, n, "s=n"),
                              (rr + (3 << 256), ss + (5 << 256), "rs+k2^256"), ((1 << 256) - 1, ss, "r=2^256-1")]:
             sv_event(_der(rv, sv_) + bytes([flag]), pkc, msg, pre, "der-" + cls)
+        # crafted so that u1 G + u2 Q is the point at infinity (r = -z/d mod n): must be rejected, never "OK"
+        for s_inf in (1, 2, n - 1, rnd.randrange(1, n)):
+            r_inf = (-zd * pow(dd, -1, n)) % n
+            if r_inf:
+                sv_event(_der(r_inf, s_inf) + bytes([flag]), pkc, msg, pre, "crafted-infinity")
+                sv_event(_der(r_inf, s_inf) + bytes([flag]), pku, msg, pre, "crafted-infinity")
         sv_event(b"", pkc, msg, pre, "empty-sig")
         sv_event(sigb[:5], pkc, msg, pre, "truncated-sig")
         sv_event(_der(rr, ss)[:2] + b"\x02\x21\x00" + rr.to_bytes(32, "big") + _der(rr, ss)[4 + _der(rr, ss)[3]:] + bytes([flag]) if rr.bit_length() <= 255 else sigb,
